@@ -92,3 +92,9 @@ impl PartialEq<u32> for StreamId {
         self.0 == *other
     }
 }
+
+#[cfg(feature = "verif")]
+#[allow(missing_docs, dead_code, unused_imports)]
+pub(crate) mod verif_h {
+    include!(concat!(env!("H2_VERIF_DIR"), "/harness/frame/stream_id.rs"));
+}
